@@ -282,6 +282,7 @@ class Check:
         if extra:
             cov.update(extra)
         cov["known_findings_hit"] = dict(self.nknown)
+        cov["violation_signatures"] = dict(sorted(self.viol_sigs.items(), key=lambda kv: -kv[1])[:60])
         if self.notes:
             cov["notes"] = self.notes
         evd = {
